@@ -220,7 +220,8 @@ class C18(Check):
                    "executed symbolically: BaseLoss.fit's bounds packing (Fortran-order reshape of lb/ub, None handling), method choice and the "
                    "wiring fun=cost / jac=sensitivity / x0=x, for symbolic x, lb, ub; and the noise-free corollary: with observations equal to the "
                    "trajectory of the model bound BY NAME (independently of how the loss routes theta), the real sensitivity(theta) is proved identically "
-                   "zero -- for all parameters, a subset and a non-model order of target_param -- so the contract returns the start.")
+                   "zero -- for all parameters, a subset and a non-model order of target_param -- so the contract returns the start; also when the caller's "
+                   "float64 x0 array is shared with a second loss object on which an initial-value evaluation ran in between.")
     stubs = ["scipy.optimize.minimize contract", "scipy.integrate.ode contract", "np.linalg.eig fixed"]
     assumptions = ["L-BFGS-B/SLSQP meet their contract (compiled optimiser, not decided)", "floats as reals"]
 
